@@ -931,5 +931,32 @@ def rule_s19(ctx):
     return res
 
 
+def rule_s20(ctx):
+    """`compiling ... completes without an internal panic`: the size in bits of an array type is the product of the element size
+    and a number the program text chooses (`[u8; 18446744073709551615]`, `[T; N]`, `[T; const { .. }]`); a product computed with
+    trapping arithmetic and without a bound on the number panics for an accepted program."""
+    res = RuleResult("S20", "the size of an array type is not computed with trapping arithmetic on a size the program text chooses")
+    fs = [f for f in ctx.find_fns("size_in_bits_for_defs") if f["kind"] in ("fn", "assoc_fn") and "mir" in f]
+    if len(fs) != 1:
+        raise AnchorMissing("S20: expected one size_in_bits_for_defs, found %d" % len(fs))
+    fid = fs[0]["id"]
+    body = ctx.body(fid)
+    sites = [(b, kind, ops, sp) for (b, kind, ops, sp) in mir.trapping_arith_sites(body) if "mul" in kind.lower()]
+    if not sites:
+        res.ok({"function": fid, "verdict": "no trapping multiplication"})
+    for (b, kind, ops, sp) in sites:
+        # the arm: which spelling of the array type
+        arm = None
+        for variant in ("Array", "ArrayConst", "ArrayConstExpr"):
+            succ = body.pruned_succ({(("arg", 1), ()): variant})
+            if b in body.reachable([0], succ=succ):
+                arm = variant if arm is None else arm + "/" + variant
+        res.bad(Finding("S20", fid, "size of %s multiplied with trapping arithmetic" % (arm or "an array type"),
+                        "element size * number of elements traps on overflow and nothing bounds the number of elements the program text may choose: "
+                        "`pub fn main(x: [u8; 18446744073709551615], y: u8) -> u8 { y }` is accepted and panics in compile (without overflow checks the product wraps: "
+                        "`[u8; 2305843009213693952]` becomes a parameter of 0 bits)", sp))
+    return res
+
+
 def run(ctx):
-    return ctx.run_rules([rule_s1, rule_s2, rule_s3, rule_s4, rule_s6, rule_s7, rule_s8, rule_s9, rule_s10, rule_s11, rule_s12, rule_s13, rule_s14, rule_s15, rule_s16, rule_s17, rule_s18, rule_s19])
+    return ctx.run_rules([rule_s1, rule_s2, rule_s3, rule_s4, rule_s6, rule_s7, rule_s8, rule_s9, rule_s10, rule_s11, rule_s12, rule_s13, rule_s14, rule_s15, rule_s16, rule_s17, rule_s18, rule_s19, rule_s20])
